@@ -204,7 +204,11 @@ func normalizeStatement(
 
 	normalizeChildren := func(children []*sysl.Statement, parentIndex []int) error {
 		for i, child := range children {
-			err := normalizeStatement(ctx, s, app, ep, child, append(parentIndex, i))
+			// each child gets its own copy of the path: appending to parentIndex itself
+			// would make siblings share one backing array whenever it has spare capacity
+			childIndex := make([]int, len(parentIndex), len(parentIndex)+1)
+			copy(childIndex, parentIndex)
+			err := normalizeStatement(ctx, s, app, ep, child, append(childIndex, i))
 			if err != nil {
 				return err
 			}
@@ -267,7 +271,9 @@ func normalizeStatement(
 		// and recurse on their children.
 		for i, choice := range stmt.GetAlt().Choice {
 			statement = stmtSkeleton()
-			statement.StmtIndex = append(statement.StmtIndex, i)
+			choiceIndex := make([]int, len(statement.StmtIndex), len(statement.StmtIndex)+1)
+			copy(choiceIndex, statement.StmtIndex)
+			statement.StmtIndex = append(choiceIndex, i)
 			statement.StmtAlt = tuple{"choice": choice.Cond}
 			if err := normalizeChildren(choice.Stmt, statement.StmtIndex); err != nil {
 				return err
